@@ -159,6 +159,8 @@ def transform(rel, text):
 EXTRACT = [
     ("core/AsmContext.cpp", r"^void AsmContext::set_cpu\(int index\)\s*\{", "AsmContext_set_cpu.inc"),
     ("asm/mips.cpp", r"^int link_function_mips\(", "link_function_mips.inc"),
+    ("core/AsmContext.cpp", r"^int AsmContext::link\(\)", "AsmContext_link.inc"),
+    ("core/Linker.cpp", r"^uint8_t \*Linker::get_code_from_symbol\(", "Linker_get_code_from_symbol.inc"),
     ("core/UtilContext.cpp", r"^void UtilContext::print8\(const char \*token\)", "UtilContext_print8.inc"),
     ("core/UtilContext.cpp", r"^void UtilContext::print16\(const char \*token\)", "UtilContext_print16.inc"),
     ("core/UtilContext.cpp", r"^void UtilContext::print32\(const char \*token\)", "UtilContext_print32.inc"),
